@@ -40,7 +40,7 @@ def ELOOP := 40
 inductive Node where
   | file (ino : Nat)
   | dir
-  | symlink (target : String)
+  | symlink (ino : Nat) (target : String)
   deriving DecidableEq, Repr
 
 structure Handle where
@@ -84,7 +84,7 @@ def St.resolve (s : St) : Nat → String → Except Nat (String × Option Node)
   | 0, _ => .error ELOOP
   | fuel + 1, name =>
     match lookup s.names name with
-    | some (.symlink t) => s.resolve fuel t
+    | some (.symlink _ t) => s.resolve fuel t
     | other => .ok (name, other)
 
 def resolveFuel : Nat := 41
@@ -108,7 +108,7 @@ def St.openFile (s : St) (h : Nat) (name : String) (flags : Option (List Gen.Ope
     -- O_CREAT|O_EXCL does not follow a symbolic link in the last component
     match (if creat && excl then .ok (name, lookup s.names name) else s.resolve resolveFuel name) with
     | .error e => (s, .err e)
-    | .ok (_, some (.symlink _)) => (s, .err EEXIST)
+    | .ok (_, some (.symlink _ _)) => (s, .err EEXIST)
     | .ok (_, some .dir) =>
       if creat && excl then (s, .err EEXIST)
       else if w || creat then (s, .err EISDIR)
@@ -156,6 +156,8 @@ def St.rename (s : St) (a b : String) : St × Out :=
     | .file i, some (.file j) =>
       -- two names of the same inode: rename does nothing
       if i = j then (s, .ok) else ({ s with names := insert (remove s.names a) b na }, .ok)
+    | .symlink i _, some (.symlink j _) =>
+      if i = j then (s, .ok) else ({ s with names := insert (remove s.names a) b na }, .ok)
     | _, some _ => ({ s with names := insert (remove s.names a) b na }, .ok)
 
 def St.hardlink (s : St) (a b : String) : St × Out :=
@@ -172,7 +174,7 @@ def St.hardlink (s : St) (a b : String) : St × Out :=
 def St.symlink (s : St) (target name : String) : St × Out :=
   match lookup s.names name with
   | some _ => (s, .err EEXIST)
-  | none => ({ s with names := insert s.names name (.symlink target) }, .ok)
+  | none => ({ s with names := insert s.names name (.symlink s.nextIno target), nextIno := s.nextIno + 1 }, .ok)
 
 inductive StatOut where
   | file (len : Nat)
@@ -184,7 +186,7 @@ inductive StatOut where
 def St.statNode (s : St) : Option Node → StatOut
   | none => .err ENOENT
   | some .dir => .dir
-  | some (.symlink _) => .symlink
+  | some (.symlink _ _) => .symlink
   | some (.file i) => .file (s.content i).length
 
 def St.stat (s : St) (name : String) (follow : Bool) : StatOut :=
